@@ -34,6 +34,11 @@ theorem sendWrites_total (z : ZlibFns) (c : Bool) (maxChunk : Nat) (p : Bytes) (
     ∃ ws, sendWrites z c maxChunk p = .ok ws ∧ ws.flatten = frameBytes z c p :=
   sendWrites_ok z c maxChunk p hf hmax
 
+/-- the guard `Fits` of the theorems below excludes nothing smaller than 4 GiB: every packet whose
+payload (the data, or its compressed form) is shorter than 2^32 bytes fits the header -/
+theorem fits_of_lt_4GiB (z : ZlibFns) (c : Bool) (p : Bytes) (h : (payload z c p).length < 2 ^ 32) : Fits z c p :=
+  Nat.lt_of_lt_of_le h lenRange_ge
+
 /-- a packet the header cannot express is refused with `struct.error` before anything is written -/
 theorem send_oversized_refused (z : ZlibFns) (c : Bool) (maxChunk : Nat) (p : Bytes) (s : WState)
     (h : ¬ Fits z c p) : chanSend z c maxChunk p s = (.err .structError, s) := by
@@ -228,7 +233,10 @@ theorem transfer_safe (z : Zlib) (c retry : Bool) (maxS maxR n : Nat) (hS : Gen.
   · exact Or.inr (Or.inl h)
   · exact Or.inr (Or.inr a)
 
-/-! ### non-vacuity: concrete instances meet the hypotheses; the model computes the expected runs -/
+/-! ### non-vacuity: concrete instances meet the hypotheses; the model computes the expected runs
+
+The samples are phrased over the generated constants (threshold, header size, flusher, errnos), so a
+harmless change of a constant does not break them. -/
 
 /-- a toy zlib that really changes the data: prefix byte 120 and reversal -/
 def toyZ : Zlib where
@@ -238,21 +246,31 @@ def toyZ : Zlib where
     | _ => none
   round_trip b := by simp
 
+/-- the platform's EAGAIN and the errno the interpreter turns into `socket.timeout` -/
+def eagain : Nat := Gen.retryErrnos.headD 0
+def etimedout : Nat := Gen.timeoutErrnos.headD eagain
+
 /-- packets: empty, tiny, and one above the compression threshold (so it travels compressed) -/
 def samplePackets : List Bytes := [[], [1, 2, 3], List.replicate (Gen.compressionThreshold + 1) 7, [255]]
 
 /-- a sender transport accepting 1, 7 or 100000 bytes per call -/
-def sampleSend : List SendEv := (List.replicate 1100 [SendEv.accept 1, .accept 7, .accept 100000]).flatten
+def sampleSend : List SendEv :=
+  (List.replicate (Gen.compressionThreshold + 100) [SendEv.accept 1, .accept 7, .accept 100000]).flatten
 
 /-- a receiver transport dribbling 1, 3 or 70000 bytes with timeouts and EAGAIN in between -/
 def sampleRecv : List RecvEv :=
-  (List.replicate 1100 [RecvEv.timeout, .chunk 1, .err 11, .chunk 3, .chunk 70000, .err 110]).flatten
+  (List.replicate (Gen.compressionThreshold + 100)
+    [RecvEv.timeout, .chunk 1, .err eagain, .chunk 3, .chunk 70000, .err etimedout]).flatten
 
-example : useCompression true (List.replicate (Gen.compressionThreshold + 1) 7) = true := by decide +kernel
-example : ∀ p ∈ samplePackets, Fits toyZ.toZlibFns true p := by
+/-- every sample packet fits the header's length field -/
+def SamplesFit : Prop := ∀ p ∈ samplePackets, Fits toyZ.toZlibFns true p
+
+example : SamplesFit := by
   intro p hp
   simp only [samplePackets, List.mem_cons, List.not_mem_nil, or_false] at hp
   rcases hp with rfl | rfl | rfl | rfl <;> unfold Fits <;> decide +kernel
+
+example : useCompression true (List.replicate (Gen.compressionThreshold + 1) 7) = true := by decide +kernel
 example : sampleSend.all accepting = true ∧ (wireOf toyZ.toZlibFns true samplePackets).length ≤ sampleSend.length := by
   decide +kernel
 example : sampleRecv.all (benign true) = true
@@ -263,45 +281,52 @@ example : sampleRecv.all (benign true) = true
 example : (recvMany toyZ.toZlibFns true Gen.socketMaxIoChunk samplePackets.length
     ⟨(sendMany toyZ.toZlibFns true Gen.socketMaxIoChunk samplePackets ⟨[], sampleSend, false⟩).2.2.sent,
      sampleRecv, false⟩).1 = samplePackets := by
-  have hf : ∀ p ∈ samplePackets, Fits toyZ.toZlibFns true p := by
+  have hf : SamplesFit := by
     intro p hp
     simp only [samplePackets, List.mem_cons, List.not_mem_nil, or_false] at hp
     rcases hp with rfl | rfl | rfl | rfl <;> unfold Fits <;> decide +kernel
   exact (transfer_exact toyZ true true Gen.socketMaxIoChunk Gen.socketMaxIoChunk hdr_le_chunk.1 chunk_pos.1
-    chunk_pos.1 samplePackets sampleSend sampleRecv hf (by decide +kernel) (by decide +kernel) (by decide +kernel)
-    (by decide +kernel)).2.2.1
+    chunk_pos.1 samplePackets sampleSend sampleRecv hf (by decide +kernel) (by decide +kernel)
+    (by decide +kernel) (by decide +kernel)).2.2.1
 
-/-- two small packets; the peer resets after 9 bytes (inside the second frame's header): the first
-packet is delivered, then `EOFError`, stream closed — nothing of the second packet is -/
+/-- two small packets; the peer resets one byte into the second frame: the first packet is delivered,
+then `EOFError`, stream closed — nothing of the second packet is -/
 example : recvMany toyZ.toZlibFns true 64000 3
     ⟨wireOf toyZ.toZlibFns false [[1, 2], [3, 4, 5]],
-     [.chunk 2, .timeout, .chunk 100, .chunk 100, .chunk 1, .err 104, .chunk 100], false⟩
-    = ([[1, 2]], .err .eofError, ⟨[0, 0, 3, 0, 3, 4, 5, 10], [.chunk 100], true⟩) := by decide +kernel
+     [.chunk (Gen.frameHeaderSize - 1), .timeout, .chunk 100, .chunk 100, .chunk 1, .err 104, .chunk 100], false⟩
+    = ([[1, 2]], .err .eofError, ⟨(frameBytes toyZ.toZlibFns false [3, 4, 5]).drop 1, [.chunk 100], true⟩) := by
+  decide +kernel
 
-/-- the same stream cut off after 9 bytes by the *sender's* death, receiver's transport healthy:
-again one packet, then `EOFError` + closed (end of stream) -/
+/-- the same stream cut off one byte into the second frame by the *sender's* death, the receiver's
+transport healthy: again one packet, then `EOFError` + closed (end of stream) -/
 example : (recvMany toyZ.toZlibFns false 64000 3
-    ⟨(wireOf toyZ.toZlibFns false [[1, 2], [3, 4, 5]]).take 9, List.replicate 20 (.chunk 4), false⟩).1 = [[1, 2]]
+    ⟨(wireOf toyZ.toZlibFns false [[1, 2], [3, 4, 5]]).take ((frameBytes toyZ.toZlibFns false [1, 2]).length + 1),
+     List.replicate 20 (.chunk 4), false⟩).1 = [[1, 2]]
     ∧ (recvMany toyZ.toZlibFns false 64000 3
-    ⟨(wireOf toyZ.toZlibFns false [[1, 2], [3, 4, 5]]).take 9, List.replicate 20 (.chunk 4), false⟩).2.1
-      = .err .eofError := by decide +kernel
+    ⟨(wireOf toyZ.toZlibFns false [[1, 2], [3, 4, 5]]).take ((frameBytes toyZ.toZlibFns false [1, 2]).length + 1),
+     List.replicate 20 (.chunk 4), false⟩).2.1 = .err .eofError := by decide +kernel
 
 /-- a pipe (`retry = false`) treats a would-block as fatal; a socket retries -/
-example : (readExact false 64000 2 ⟨[1, 2, 3], [.err 11, .chunk 5], false⟩).1 = .eof
-    ∧ (readExact true 64000 2 ⟨[1, 2, 3], [.err 11, .chunk 5], false⟩).1 = .ok [1, 2] := by decide +kernel
+example : (readExact false 64000 2 ⟨[1, 2, 3], [.err eagain, .chunk 5], false⟩).1 = .eof
+    ∧ (readExact true 64000 2 ⟨[1, 2, 3], [.err eagain, .chunk 5], false⟩).1 = .ok [1, 2] := by decide +kernel
 
 /-- the writer: a partial send then a timeout — 3 of 5 bytes accepted, `EOFError`, closed -/
 example : writeAll 64000 [1, 2, 3, 4, 5] ⟨[], [.accept 3, .timeout, .accept 9], false⟩
     = (.eof, ⟨[[1, 2, 3]], [.accept 9], true⟩) := by decide +kernel
 
-/-- the one-write / three-write boundary at `MAX_IO_CHUNK` = 16 for a 10- and an 11-byte packet -/
 def writeLens : Except Err (List Bytes) → Option (List Nat)
   | .ok ws => some (ws.map List.length)
   | .error _ => none
 
-example : writeLens (sendWrites toyZ.toZlibFns false 16 (List.replicate 10 0)) = some [16]
-    ∧ writeLens (sendWrites toyZ.toZlibFns false 16 (List.replicate 11 0)) = some [16, 0, 1]
-    ∧ writeLens (sendWrites toyZ.toZlibFns false 16 (List.replicate 12 0)) = some [16, 1, 1] := by
+/-- the one-write / three-write boundary, at a `MAX_IO_CHUNK` that holds header + 10 bytes + flusher -/
+example :
+    writeLens (sendWrites toyZ.toZlibFns false (Gen.frameHeaderSize + 10 + Gen.flusher.length) (List.replicate 10 0))
+      = some [Gen.frameHeaderSize + 10 + Gen.flusher.length]
+    ∧ writeLens (sendWrites toyZ.toZlibFns false (Gen.frameHeaderSize + 10 + Gen.flusher.length) (List.replicate 11 0))
+      = some [Gen.frameHeaderSize + 11, 0, Gen.flusher.length]
+    ∧ writeLens (sendWrites toyZ.toZlibFns false (Gen.frameHeaderSize + 10 + Gen.flusher.length)
+        (List.replicate (10 + Gen.flusher.length + 1) 0))
+      = some [Gen.frameHeaderSize + 10 + Gen.flusher.length, 1, Gen.flusher.length] := by
   decide +kernel
 
 end Rpyc.Props.C05
